@@ -20,6 +20,13 @@ res = {'seed': seed, 'property': prop}
 env = dict(os.environ, PYTHONPATH=REPO, VERIF_REPO=REPO)
 res['demo_clean_exit'] = sh('timeout 300 /venv/bin/python %s/demo.py' % seed, cwd=REPO, env=env)[0]
 rc, out = sh('git -C %s apply %s/patch.diff' % (REPO, os.path.abspath(seed)))
+if rc != 0:   # the repository moved on since the patch was made: try a 3-way merge
+  rc, out = sh('git -C %s apply --3way %s/patch.diff' % (REPO, os.path.abspath(seed)))
+  if rc == 0:
+    sh('git -C %s reset -q' % REPO)
+    res['applied_with'] = '3way'
+  else:
+    sh('git -C %s checkout -q -- . ; git -C %s reset -q --hard' % (REPO, REPO))
 if rc != 0:
   res['apply'] = 'FAILED: ' + out[-300:]
   print(json.dumps(res, indent=1))
